@@ -42,10 +42,10 @@ META = {
         "technique": "Lean 4 invariant proof (IdxInv preserved by apply_logical_op) + differential correspondence check",
     },
     "C07": {
-        "text": "Concurrent: after ANY schedule of ANY programs, whenever all threads are idle the CAS directory holds a file for a hash iff some key references it (C07_quiescent_exact; protection counts equal the number of commits in their window). Sequential: over whole histories every referenced content has its file with exactly its bytes (runOps_sinv); apply_logical_op returns exactly the hashes that lost their last reference; abandoned transactions leave no file. That the real store unlinks exactly that list is tied by comparing cas/ and staging/ listings after every step / schedule. " + _corr,
+        "text": "Concurrent: after ANY schedule of ANY programs, whenever all threads are idle the CAS directory holds a file for a hash iff some key references it (C07_quiescent_exact; protection counts equal the number of commits in their window). Sequential, over whole histories of Store.lean's scripts: every referenced content has its file with exactly its bytes (runOps_sinv) AND every file under cas/ is referenced by some key, no staging file is left (C07_sequential_exact) — exactness, preserved by a clean restart (C02_reopen_succeeds); apply_logical_op returns exactly the hashes that lost their last reference; abandoned transactions leave no file. That the real store issues exactly these calls is tied by comparing cas/ and staging/ listings after every step / schedule. " + _corr,
         "design_ref": "DESIGN.md §7 C07",
         "note": "Trusted: Lean kernel; Conc.lean at yield-point granularity; Store.lean scripts; quiescent, fault-free histories; no descriptor keeps an unlinked staging file alive (observed).",
-        "technique": "Lean 4 theorem on the unreferenced-hash list + differential correspondence on directory listings",
+        "technique": "Lean 4 theorems (store-level exactness invariant over whole histories; interleaving invariant for schedules) + differential correspondence on directory listings",
     },
     "C13": {
         "text": "Frame theorem over the filesystem model: begin/write*/abort leaves every file other than the private staging file, every directory, untouched and removes the staging file — for every disk; concurrent: an abandoned transaction changes nothing shared whatever the other threads do (C13_abort_invisible). Observed: no descriptor keeps an unlinked staging file alive; leftovers after a kill are reported and removed. " + _corr,
@@ -54,9 +54,9 @@ META = {
         "technique": "Lean 4 frame lemma over the Fs model + differential correspondence on histories with aborts at every position",
     },
     "C02": {
-        "text": "Byte level (Lean theorems over Store.lean's event scripts): closing a handle and opening the directory again reads the log without panic and yields exactly the key map memory held, with memory and disk tied again (C02_reopen_transparent_bytes); the scripts are runs of the record-level machine event by event (logAndApply_sim, checkpoint_sim, open_sim), the index file loads back to the state it was taken from (load_saved). Record level: for ALL action sequences memory = state after the logged history. " + _corr,
+        "text": "Byte level (Lean theorems over Store.lean's event scripts): closing a handle and opening the directory again reads the log without panic and yields exactly the key map memory held, with memory and disk tied again (C02_reopen_transparent_bytes); the scripts are runs of the record-level machine event by event (logAndApply_sim, checkpoint_sim, open_sim), the index file loads back to the state it was taken from (load_saved). Store level: from a store in the sequential invariants `open` RETURNS A HANDLE (no panic, the integrity scan finds nothing: scan_clean), every key reads the same content, no blob file appears or disappears, and the store is tied again (C02_reopen_succeeds). Record level: for ALL action sequences memory = state after the logged history. " + _corr,
         "design_ref": "DESIGN.md §7 C02, §4 P3",
-        "note": "Trusted: Lean kernel; hand model Store.lean; that the REAL code issues the script's calls: syscall-trace, on-disk-bytes and API comparison after every step and reopen; hypotheses SaveOK / version bounds; blobs and statistics across the reopen via C07/C12.",
+        "note": "Trusted: Lean kernel; hand model Store.lean; that the REAL code issues the script's calls: syscall-trace, on-disk-bytes and API comparison after every step and reopen; hypotheses SaveOK / version bounds, no stray files under cas/, collision-free hash on the contents in use.",
         "technique": "Lean 4 invariant proof over a record-level WAL state machine + differential correspondence incl. syscall traces",
     },
     "C03": {
